@@ -1,7 +1,10 @@
 """C17 — sutoton and full-width text: streams."""
-from ..core import Stream, hx, unhx
+import os, subprocess, tempfile, shutil
+from ..core import Stream, hx, unhx, WORK
 from tools import gen_tables
 from .. import mml
+
+NEED_CLI = True      # the command-line tool is an entry point too: it must run the same preprocessor
 
 RULE = ("convert: structured inputs (concatenations of vocabulary words incl. overlapping ones, user definitions ~{n}={v} and their later "
         "uses, ASCII MML, {\"...\"} strings and comments that contain vocabulary words) through the real sutoton::convert; the output must equal "
@@ -161,6 +164,8 @@ def streams(tier, rng, P, only=None, cases=None):
             if st_ != "ok": continue
             for entry in ("midi", "lib", "obj"):
                 cs.append(dict(req="compile %s 0 en %s" % (hx(jp), entry), jp=jp, mml=mml_, expect=f_["bin"], key="am%d%s" % (i, entry), show="[%s] %s  vs  %s" % (entry, jp, mml_)))
+            # ... and through the command-line tool (a fresh process reading the text from a file)
+            cs.append(dict(req="compile %s 0 en lib" % hx(jp), jp=jp, mml=mml_, expect=f_["bin"], cli=True, key="am%dcli" % i, show="[command line] %s  vs  %s" % (jp, mml_)))
         for j, (jp, mml_) in enumerate([("~{do}={c}~{re}={d} l4 do re do", "l4 c d c"), ("ドレミ", "cde"), ("~{x1}={[2 e]} x1 c", "[2 e] c"), ("トラック2 ドレ", "TR=2 cd")]):
             cs.append(dict(req="objseq en 0 %s %s" % (hx(jp), hx(mml_)), jp=jp, mml=mml_, key="aof%d" % j, show="[object API] %s  vs  %s" % (jp, mml_)))
         return cs
@@ -191,6 +196,16 @@ def streams(tier, rng, P, only=None, cases=None):
     def midi_judge(c, impl, m):
         st, f = impl
         if st != "ok": return None
+        if c.get("cli"):
+            tmp = tempfile.mkdtemp(prefix="sv-cli17-", dir=WORK)
+            try:
+                srcf = os.path.join(tmp, "a.mml"); outf = os.path.join(tmp, "a.mid")
+                open(srcf, "w", encoding="utf-8").write(c["jp"])
+                r = subprocess.run([P.cli, srcf, outf], stdout=subprocess.PIPE, stderr=subprocess.PIPE, timeout=60)
+                got = open(outf, "rb").read().hex() if (r.returncode == 0 and os.path.exists(outf)) else "failed rc=%d" % r.returncode
+            finally:
+                shutil.rmtree(tmp, ignore_errors=True)
+            if got != c["expect"]: return ("violation", "through the command-line tool, a source with word definitions compiles to other MIDI than its transliteration")
         if "expect" in c:
             if f.get("bin") != c["expect"]: return ("violation", "a source with word definitions compiles to other MIDI than its transliteration through one of the entry points")
             return None
